@@ -12,8 +12,8 @@ import (
 	"github.com/oasisprotocol/curve25519-voi/curve"
 	"github.com/oasisprotocol/curve25519-voi/curve/scalar"
 	"github.com/oasisprotocol/curve25519-voi/zzverif/gen"
-	"github.com/oasisprotocol/curve25519-voi/zzverif/hist"
 	"github.com/oasisprotocol/curve25519-voi/zzverif/gx"
+	"github.com/oasisprotocol/curve25519-voi/zzverif/hist"
 	"github.com/oasisprotocol/curve25519-voi/zzverif/mon"
 	"github.com/oasisprotocol/curve25519-voi/zzverif/ref"
 )
